@@ -911,14 +911,19 @@ class TmpPool:
         """
         Removes all created files from this pool and also the file system.
         """
-        for p in self._created_files:
+        # The list is emptied in place. It must not be replaced by a new one, because the processes that were forked
+        # earlier share the old one, and the files they create later would never be removed.
+        while True:
+            try:
+                p = self._created_files.pop()
+            except IndexError:
+                break
+
             try:
                 os.remove(p)
             except FileNotFoundError:
                 # already removed
                 pass
-
-        self._created_files = self._manager.list() if self._multi_proc else []
 
 
 class FilePool(Mapping[str, IO]):
